@@ -1,8 +1,9 @@
 """C27 -- model parameters are validated and reach every loaded model.
 
-(M)    spec/LoaderRepo.tla over the family FamC27 (MC_LoaderRepo.tla): declared x given parameter names
+(M)    spec/LoaderRepo.tla over the family FamC27 (EnumLoaderRepo.tla): declared x given parameter names
        x string / string-with-file-name / file loads x import graphs x six import mechanisms x global
-       repository on/off; invariants C27_Reject (rejected iff an undeclared name is given, and then nothing
+       repository on/off, parameter values std / None / falsy, closures over two languages whose
+       metamodels declare different parameters; invariants C27_Reject (rejected iff an undeclared name is given, and then nothing
        has happened) and C27_Params (every model created by the load exposes exactly the given parameters);
 (S->I) every scenario executed on the real loader: TextXError iff undeclared, dict(_tx_model_params) of
        every model of the closure, opens and repositories untouched on rejection;
@@ -38,6 +39,8 @@ META = dict(
                 "parameters on every created model over the bounded family; every scenario is replayed against the real "
                 "loader (string and file loads, every import mechanism) and seeded-random sessions are validated by TLC."),
     level_note=("Bounded: parameter names {p, q, project_root, zzz}, <= 3 files; models returned from the global "
-                "repository keep the parameters of the load that created them (the property speaks of created models)."),
+                "repository keep the parameters of the load that created them (the property speaks of created models). "
+                "Values 1/'v'/0, None, 0/''/False; two-language closures a -> b -> c with parameters declared by the "
+                "outer language only."),
     technique="TLC model checking of LoaderRepo.tla + scenario replay against TLC-printed behaviours + TLC trace validation",
 )
